@@ -46,6 +46,9 @@ def make_types(rng):
         return pt
     for n in (1, 2, 3, 4, 7, 8, 11, 12, 14, 16, 24, 32):
         add(t_uint(n, tname=f"U{n}_T"))
+    # wider than 32 bits (the 64-bit dataset dtypes; word boundaries of the bit reader)
+    add(t_uint(33, tname="U33_T")); add(t_uint(40, tname="U40_T")); add(t_uint(64, tname="U64_T"))
+    add(t_uint(64, enc="signed", tname="S64_T")); add(t_uint(48, enc="twosComplement", bo=LSB, tname="S48LE_T"))
     add(t_uint(16, bo=LSB, tname="U16LE_T"))
     add(t_uint(8, enc="signed", tname="S8_T"))
     add(t_uint(12, enc="twosComplement", tname="S12_T"))
